@@ -72,7 +72,8 @@ func isRelation(tp reflect.Type) bool {
 	return field.Type == relationType && field.Name == relationType.Name()
 }
 
-// isTrivial checks if a type is "trivial" (contains no pointers, slices, maps, strings, or channels).
+// isTrivial checks if a type is "trivial" (contains no pointers, slices, maps, strings, channels,
+// functions or unsafe pointers).
 // It also returns false if the type itself is one of these.
 func isTrivial(tp reflect.Type) bool {
 	// Base case: If the type is invalid, return false
@@ -80,9 +81,10 @@ func isTrivial(tp reflect.Type) bool {
 		return false
 	}
 
-	// Check if the type itself is a pointer, slice, map, or channel
+	// Check if the type itself is a pointer, slice, map, channel, function or unsafe pointer
 	switch tp.Kind() {
-	case reflect.Ptr, reflect.Slice, reflect.Map, reflect.Chan, reflect.Interface, reflect.String:
+	case reflect.Ptr, reflect.Slice, reflect.Map, reflect.Chan, reflect.Interface, reflect.String,
+		reflect.Func, reflect.UnsafePointer:
 		return false
 	}
 
